@@ -20,6 +20,8 @@ ASSUMPTIONS = [
     'RefinementObjectSingleDimension objects of a randomly constructed VALID tree (dyadic geometry, 7 of 8 refine the initial grid, binary-tree '
     'levels, >= 3 intervals) and refinement_postprocessing() is called (sa.rebalancing toggled for that call); such states over-approximate the '
     'reachable ones - C06_install_inv / C03_*_installed prove the properties for all of them',
+    'lessons sweep: observer calls, sentinel overwrites of returned objects, further performSpatiallyAdaptiv legs and a companion object '
+    'are no-ops in the model (pure function of the benefit history); a leg that rebuilds the refinement is modelled as a fresh run',
 ]
 FIELDS = ['trees', 'lmax', 'active', 'old', 'scheme', 'book']
 PROP = 6
@@ -51,6 +53,12 @@ def corpus(what):
                                   (3, 2, 3, True), (3, 3, 3, False), (2, 8, 4, True)]:
         bens = [[[[1, 1]] + [[0, 1]] * (3 + k) for _ in range(dim)] for k in range(nst)]
         out.append(dict(base, dim=dim, version=version, boundary=bd, a=[0.0] * dim, b=[1.0] * dim, bens=bens))
+    # exemplars of the recorded findings (lessons sweep): returned lmax / scheme alias the state; a re-run on the same object
+    # starts from the caches of the previous run
+    z8 = [[0, 1]] * 8
+    out.append(dict(base, lmax=3, version=2, steps=0, bens=[], drive='direct', observe=True, scribble=True))
+    out.append(dict(base, lmax=3, version=2, drive='direct', what=max(what, 1) if what else 0, bens=[[[[0, 1]] * 7 + [[1, 1]], z8]],
+                    legs=[dict(mode='fresh', lmin=1, lmax=2, steps=0, bens=[])]))
     return out
 
 
@@ -116,9 +124,10 @@ def evaluate(chk, cases, what, fields, prop, extra_oracle=None):
     # timeout is reported (a genuinely non-terminating loop in the implementation)
     slow = [i for i, (st, r) in enumerate(impl) if st == 'timeout']
     if slow:
-        chk.count('timeouts-retried', len(slow))
-        again = run_impl(dw.impl_run, [cases[i] for i in slow], nproc=4, limit=900)
-        for i, res in zip(slow, again):
+        chk.count('timeouts-retried', min(len(slow), 12))
+        chk.count('timeouts-not-retried', max(0, len(slow) - 12))      # many timeouts are not a load effect: they are reported
+        again = run_impl(dw.impl_run, [cases[i] for i in slow[:12]], nproc=4, limit=600)
+        for i, res in zip(slow[:12], again):
             impl[i] = res
     lap('implementation')
     mcases = [dw.model_case(c, r if st == 'ok' else None) for c, (st, r) in zip(cases, impl)]
@@ -154,6 +163,16 @@ def evaluate(chk, cases, what, fields, prop, extra_oracle=None):
         chk.count('checker_evaluations')
         if sx.is_err(v) or isinstance(v, tuple) or not all(v):
             ck_bad.setdefault(i, []).append((step, v))
+    # further legs on the same object (axis f): each leg against the model of a fresh run / of the continued run
+    leg_jobs = []
+    for i, (c, (st, r)) in enumerate(zip(cases, impl)):
+        if st == 'ok' and r.get('legs'):
+            for j, mc, off in dw.leg_model_cases(c, r):
+                leg_jobs.append((i, j, mc, off))
+    leg_out = {}
+    for (i, j, mc, off), res in zip(leg_jobs, run_model(prop, [m for _, _, m, _ in leg_jobs])):
+        leg_out[(i, j)] = (res, off)
+    lap('model-legs')
     info = []
     confirmations = 0
     for i, (c, (st, r), mr) in enumerate(zip(cases, impl, mres)):
@@ -188,6 +207,7 @@ def evaluate(chk, cases, what, fields, prop, extra_oracle=None):
             if step >= 1:
                 for e in dw.step_events(c, r['states'][step - 1], r['bens'][step - 1], r['states'][step]):
                     chk.count('%s:%s' % (fam, e))
+        c = dict(c, legs=None) if c.get('legs') else c
         fixed_case = dict(c, bens=jsonable_bens(r['bens']), steps=len(r['bens']))
         # oracles on the implementation alone
         why, wstep = _first_failure(c, r, extra_oracle)
@@ -222,9 +242,94 @@ def evaluate(chk, cases, what, fields, prop, extra_oracle=None):
         elif i in ck_bad:
             chk.violation('checker:tree_ok', 'checker-rejects-impl-state', sig, fixed_case,
                           dict(steps=str(ck_bad[i])[:300]), failing_input=False)
-        info.append(dict(result=r, model=mr, ok=(why is None and diff is None and i not in ck_bad and 'exc' not in r)))
+        legs_ok = _sweep(chk, prop, cases[i], r, fixed_case, leg_out, i, fields, extra_oracle)
+        info.append(dict(result=r, model=mr, ok=(why is None and diff is None and i not in ck_bad and 'exc' not in r and legs_ok)))
     lap('oracles+comparison')
     return info
+
+
+def _sweep(chk, prop, c, r, fixed_case, leg_out, i, fields, extra_oracle):
+    """lessons sweep: axis histogram, implementation-only findings of the observer / aliasing / immutability probes, and the
+    further legs of a history on one object"""
+    ok = True
+    for k, v in (r.get('axes') or {}).items():
+        chk.count('axis:' + k, v)
+    legs = r.get('legs') or []
+
+    def case_upto(legno, stepno=None):
+        """the case trimmed to leg `legno` (0 = first history) and `stepno` steps of that leg"""
+        if legno == 0:
+            return dict(fixed_case, legs=None, bens=fixed_case['bens'][:stepno] if stepno is not None else fixed_case['bens'],
+                        steps=stepno if stepno is not None else fixed_case['steps'])
+        ls = []
+        for j, l in enumerate(legs[:legno]):
+            nb = jsonable_bens(l['bens'])
+            if j == legno - 1 and stepno is not None:
+                nb = nb[:stepno]
+            ls.append(dict(mode=l['mode'], lmin=l['lmin'], lmax=l['lmax'], steps=len(nb), bens=nb))
+        return dict(fixed_case, legs=ls)
+
+    for kind, where, detail, legno, stepno in (r.get('problems') or []):
+        if kind == 'result-aliases-internal-state' and where == ('returned-scheme' if prop == 6 else 'returned-lmax'):
+            continue          # reported by the other property of the pair (C06: lmax, C03: scheme)
+        ok = False
+        chk.violation('oracle:C%02d/axis' % prop, kind, dict(where=where), case_upto(legno, stepno),
+                      dict(detail=detail, leg=legno, step=stepno, scribble=bool(c.get('scribble'))), failing_input=True)
+    for j, leg in enumerate(legs):
+        mode = leg['mode']
+        chk.count('axis:f:leg-steps-%s' % mode, len(leg['bens']))
+        lc = dict(c, lmin=leg['lmin'], lmax=leg['lmax']) if mode == 'fresh' else c
+        nst = len(leg['states']) - (1 if 'exc' in leg else 0)
+        sig0 = dict(start='restart-' + mode)
+        if 'exc' in leg:
+            ok = False
+            chk.violation('corr:C%02d/history' % prop, 'impl-exception', dict(exc=leg['exc'][0], where=leg['exc'][1], **sig0),
+                          case_upto(j + 1, leg['exc'][3]), dict(step=leg['exc'][3], impl=str(leg['exc']), leg=j + 1), failing_input=True)
+        if leg.get('fresh_diff'):
+            ok = False
+            chk.violation('oracle:C%02d/rerun' % prop, 'rerun-depends-on-previous-run', dict(observable=leg['fresh_diff']),
+                          case_upto(j + 1, 0),
+                          dict(leg=j + 1, note='after a further performSpatiallyAdaptiv on the same object the %s differ from those of a '
+                               'fresh object with the same options in the same (initial) state' % leg['fresh_diff']), failing_input=True)
+        why = None
+        for step in range(nst):
+            s = leg['states'][step]
+            why = dw.oracle_state_c06(lc, s)
+            if why is None and extra_oracle is not None and 'stripes' in s:
+                why = extra_oracle(lc, s)
+            if why:
+                ok = False
+                chk.violation('oracle:C%02d' % prop, 'property-predicate', dict(clause=dw.clause_of(why), **sig0), case_upto(j + 1, step),
+                              dict(step=step, why=why, leg=j + 1), failing_input=True)
+                break
+        if why is None:
+            for step, (b, sel) in enumerate(zip(leg['bens'], leg['selected'])):
+                if step + 1 >= nst:
+                    break
+                w = dw.oracle_selection(lc, b, sel)
+                if w:
+                    ok = False
+                    chk.violation('oracle:C%02d' % prop, 'property-predicate', dict(clause='selection', **sig0), case_upto(j + 1, step + 1),
+                                  dict(step=step + 1, why=w, leg=j + 1), failing_input=True)
+                    break
+        if why is None and (i, j) in leg_out:
+            mo, off = leg_out[(i, j)]
+            if sx.is_err(mo) or isinstance(mo, tuple):
+                diff = (0, 'model-error', None, str(mo)[:200])
+            else:
+                mo = mo[off:off + nst]
+                f0 = [f for f in fields if not (leg.get('fresh_diff') and f in ('stripes', 'points'))]
+                diff = dw.compare_states(lc, leg['states'][:1], mo[:1], f0) if nst >= 1 else None
+                if diff is None and nst > 1:
+                    diff = dw.compare_states(lc, leg['states'][1:nst], mo[1:], fields)
+                    if diff:
+                        diff = (diff[0] + 1,) + tuple(diff[1:])
+            if diff:
+                ok = False
+                step, fld, iv, mv = diff
+                chk.violation('corr:C%02d/%s' % (prop, fld), 'history-differs', dict(observable=fld, **sig0), case_upto(j + 1, step),
+                              dict(step=step, field=fld, leg=j + 1, impl=str(iv)[:700], model=str(mv)[:700]), failing_input=False)
+    return ok
 
 
 def run(chk):
@@ -232,9 +337,9 @@ def run(chk):
     n = chk.n(110, 1500)
     nd = chk.n(1000, 12000)
     ni = chk.n(800, 10000)
-    cases = (corpus(0) + [dw.gen_case(chk.rng, chk.tier, 0) for _ in range(n)]
-             + [dw.gen_case_deep(chk.rng, chk.tier, 0) for _ in range(nd)]
-             + [dw.gen_case_install(chk.rng, chk.tier, 0) for _ in range(ni)])
+    cases = (corpus(0) + [dw.add_sweep_axes(chk.rng, dw.gen_case(chk.rng, chk.tier, 0), 0) for _ in range(n)]
+             + [dw.add_sweep_axes(chk.rng, dw.gen_case_deep(chk.rng, chk.tier, 0), 0) for _ in range(nd)]
+             + [dw.add_sweep_axes(chk.rng, dw.gen_case_install(chk.rng, chk.tier, 0), 0) for _ in range(ni)])
     info = evaluate(chk, cases, 0, FIELDS, PROP)
     keys, samples = [], []
     seen_fam = set()
@@ -264,7 +369,10 @@ def run(chk):
                      'randomly constructed VALID deep state (random dyadic geometry x random binary-tree levels installed into the real '
                      'containers, refinement_postprocessing with or without the rebalancing pass). Violations found by direct drive are '
                      'replayed through the public API. non-trivial = >=2 steps and >=2 splits (install: >=1 split); distinct by options, '
-                     'installed trees and split positions', samples)
+                     'installed trees and split positions. Lessons sweep on top of every family (drawn independently per case): observer calls between the '
+                     'steps with argument-immutability / returned-object-overwrite probes, bounds / level vectors / points as other object kinds, far-off / tiny / '
+                     'huge boxes and benefit magnitudes 2^-60..2^30, further performSpatiallyAdaptiv legs on the same object, a second object alive in the '
+                     'process, d = 1, a few trees with 200-300 intervals (histogram keys axis:*)', samples)
 
 
 def replay(chk, rep):
